@@ -1,7 +1,1071 @@
-//! C24 — not implemented yet (see DESIGN.md section 4).
-use kit::Run;
-use serde_json::Value;
+//! C24 — contexts are isolated and safe to share across threads.
+//! S-sched with a checkpoint-granular baton scheduler: every operation runs on its own OS thread and blocks inside
+//! its progress callback (and before its first and after its last instruction) until the explorer hands it the baton.
+//! One thread runs at a time, so an execution is fully determined by its schedule = the sequence of baton grants.
+//! A stateless depth-first search enumerates ALL schedules of a harness (optionally with a preemption bound).
+//!
+//! Two engines execute a schedule, chosen per harness:
+//!  * `baton` — real OS threads parked on a condition variable (used where OS-thread identity matters: the harnesses
+//!    with legacy thread-local settings and settings-builder calls);
+//!  * `shuttle` — the same operations as shuttle threads (continuations on one OS thread) that yield inside the progress
+//!    callback; a replay-prefix scheduler picks the next thread at every yield. No OS context switch per hand-off, so the
+//!    big harnesses (3*10^4 .. 6*10^5 interleavings) stay affordable on a loaded machine. Enumeration is the same
+//!    stateless DFS over prefixes for both engines.
+//!
+//! A thread with m progress checkpoints consists of m+1 segments, so two threads with m1 and m2 checkpoints have
+//! C(m1+m2+2, m1+1) interleavings (counted and reported, not assumed).
+//!
+//! Oracle (DESIGN.md C24): every operation's result equals its sequential result; an operation on a context that is
+//! cancelled during the execution must end as some sequential placement of the cancel allows (cancelled, or — only
+//! when the cancel was not issued before the operation started — the sequential result; and the sequential result
+//! when the cancel was issued after it finished); cancel on context A never changes a result on context B; the
+//! legacy thread-local settings of every thread are unchanged by anything another thread does and by settings-builder calls.
+//!
+//! Mutants caught (tools/mutant_run.sh G <diff> C24 quick):
+//!   C24-static-cancel-flag.diff   Context::cancel_flag made a process-wide static -> VIOLATION (cancel on ctx B changes op on ctx A)
 
-pub fn run(_run: &Run, _replay: Option<&Value>) {
-    kit::ev::machinery("C24: check not implemented");
+use c2pa::{settings::Settings, Builder, Context, ProgressPhase, Reader};
+use kit::{assets, canon, gutil, par, sdk, Run};
+use serde_json::{json, Value};
+use std::{
+    cell::Cell,
+    collections::BTreeMap,
+    io::Cursor,
+    sync::{
+        atomic::{AtomicU64, Ordering},
+        Arc, Condvar, Mutex, OnceLock,
+    },
+    time::Duration,
+};
+
+// ------------------------------------------------------------------------------------------------
+// baton
+
+#[derive(Clone, Copy, PartialEq, Debug)]
+enum St {
+    /// waiting for the baton (parked at a gate)
+    Parked,
+    Running,
+    Done,
+}
+
+struct BatonState {
+    st: Vec<St>,
+    turn: Option<usize>,
+    /// label of the gate each actor is parked at (for traces)
+    at: Vec<String>,
+}
+
+struct Baton {
+    m: Mutex<BatonState>,
+    cv: Condvar,
+}
+
+thread_local! {
+    static ACTOR: Cell<Option<usize>> = const { Cell::new(None) };
+}
+
+const HANG: Duration = Duration::from_secs(120);
+
+impl Baton {
+    fn new(n: usize) -> Arc<Baton> {
+        Arc::new(Baton { m: Mutex::new(BatonState { st: vec![St::Running; n], turn: None, at: vec![String::new(); n] }), cv: Condvar::new() })
+    }
+
+    /// Called by actor threads: park here until the explorer grants the baton.
+    fn gate(&self, label: &str) {
+        let Some(i) = ACTOR.with(|a| a.get()) else { return };
+        let mut g = self.m.lock().unwrap_or_else(|e| e.into_inner());
+        g.st[i] = St::Parked;
+        g.at[i] = label.to_string();
+        if g.turn == Some(i) {
+            g.turn = None;
+        }
+        self.cv.notify_all();
+        while g.turn != Some(i) {
+            g = self.cv.wait(g).unwrap_or_else(|e| e.into_inner());
+        }
+        g.st[i] = St::Running;
+    }
+
+    fn done(&self, i: usize) {
+        let mut g = self.m.lock().unwrap_or_else(|e| e.into_inner());
+        g.st[i] = St::Done;
+        if g.turn == Some(i) {
+            g.turn = None;
+        }
+        self.cv.notify_all();
+    }
+
+    /// Explorer: wait until nobody runs. Returns false on a hang.
+    fn quiesce(&self) -> bool {
+        let mut g = self.m.lock().unwrap_or_else(|e| e.into_inner());
+        let start = std::time::Instant::now();
+        while g.turn.is_some() || g.st.iter().any(|s| *s == St::Running) {
+            let (g2, _) = self.cv.wait_timeout(g, Duration::from_millis(200)).unwrap_or_else(|e| e.into_inner());
+            g = g2;
+            if start.elapsed() > HANG {
+                return false;
+            }
+        }
+        true
+    }
+
+    fn enabled(&self) -> Vec<usize> {
+        let g = self.m.lock().unwrap_or_else(|e| e.into_inner());
+        (0..g.st.len()).filter(|i| g.st[*i] == St::Parked).collect()
+    }
+
+    fn grant(&self, i: usize) -> String {
+        let mut g = self.m.lock().unwrap_or_else(|e| e.into_inner());
+        g.turn = Some(i);
+        g.st[i] = St::Running;
+        let at = g.at[i].clone();
+        self.cv.notify_all();
+        at
+    }
+}
+
+// ------------------------------------------------------------------------------------------------
+// actors
+
+#[derive(Clone, Debug, PartialEq)]
+enum Act {
+    Sign,
+    Read,
+    Cancel,
+    /// Settings::new().with_json(..)/with_value(..)/with_toml(..) — must not touch any thread-local state
+    SettingsBuilder,
+    /// deprecated Settings::from_toml on this thread — changes THIS thread's legacy settings only
+    LegacyFromToml,
+}
+
+#[derive(Clone, Debug)]
+struct ActorSpec {
+    act: Act,
+    /// index of the context the actor uses
+    ctx: usize,
+}
+
+struct Harness {
+    name: String,
+    actors: Vec<ActorSpec>,
+    n_ctx: usize,
+    preemption_bound: Option<usize>,
+}
+
+#[derive(Clone, Debug, PartialEq)]
+struct ActorResult {
+    /// "Ok:<canon>" | "Cancelled" | "Err(kind)" | "PANIC ..." | "done"
+    result: String,
+    legacy_before: String,
+    legacy_after: String,
+}
+
+struct Fixture {
+    asset: assets::Asset,
+    signed: Vec<u8>,
+}
+
+const LEGACY_TOML: &str = "[verify]\nverify_after_sign = false\n[core]\nmerkle_tree_chunk_size_in_kb = 7\n";
+
+#[allow(deprecated)]
+fn legacy_snapshot() -> String {
+    Settings::to_toml().unwrap_or_else(|e| format!("to_toml failed: {e:?}"))
+}
+
+fn short_result(s: &str) -> String {
+    s.chars().take(40).collect()
+}
+
+fn mk_ctx(b: &Arc<Baton>) -> Arc<Context> {
+    let b2 = b.clone();
+    sdk::ctx()
+        .with_progress_callback(move |phase: ProgressPhase, step, total| {
+            b2.gate(&format!("{phase:?} {step}/{total}"));
+            true
+        })
+        .into_shared()
+}
+
+fn signer() -> &'static (dyn c2pa::Signer + Send + Sync) {
+    static S: OnceLock<Box<dyn c2pa::Signer + Send + Sync>> = OnceLock::new();
+    S.get_or_init(|| sdk::fixture_signer("ed25519")).as_ref()
+}
+
+#[allow(deprecated)]
+fn actor_body(spec: &ActorSpec, ctxs: &[Arc<Context>], fx: &Fixture) -> String {
+    match spec.act {
+        Act::Sign => {
+            let ctx = &ctxs[spec.ctx];
+            let r = par::guard(|| {
+                let mut b = Builder::from_shared_context(ctx).with_definition(r#"{"title":"t"}"#)?;
+                b.set_intent(c2pa::BuilderIntent::Edit);
+                let mut dst = Cursor::new(Vec::new());
+                b.sign(signer(), fx.asset.mime, &mut Cursor::new(&fx.asset.data), &mut dst)?;
+                Ok::<Vec<u8>, c2pa::Error>(dst.into_inner())
+            });
+            match r {
+                Err(p) => format!("PANIC {p}"),
+                Ok(Err(c2pa::Error::OperationCancelled)) => "Cancelled".into(),
+                Ok(Err(e)) => gutil::err_class(&e),
+                // judged by a clean, un-gated reader (the calling thread has no pending baton interest in it)
+                Ok(Ok(bytes)) => match sdk::read(sdk::ctx(), fx.asset.mime, &bytes) {
+                    Ok(r) => format!("Ok:{}", gutil::canon_masked(&r)),
+                    Err(e) => format!("Ok:unreadable {}", gutil::err_class(&e)),
+                },
+            }
+        }
+        Act::Read => {
+            let ctx = &ctxs[spec.ctx];
+            let r = par::guard(|| Reader::from_shared_context(ctx).with_stream(fx.asset.mime, Cursor::new(&fx.signed)));
+            match r {
+                Err(p) => format!("PANIC {p}"),
+                Ok(Err(c2pa::Error::OperationCancelled)) => "Cancelled".into(),
+                Ok(Err(e)) => gutil::err_class(&e),
+                Ok(Ok(r)) => format!("Ok:{}", canon::canon_string(&r)),
+            }
+        }
+        Act::Cancel => {
+            ctxs[spec.ctx].cancel();
+            "done".into()
+        }
+        Act::SettingsBuilder => {
+            let r = par::guard(|| {
+                let s = Settings::new().with_json(r#"{"verify":{"verify_after_sign":false},"core":{"merkle_tree_chunk_size_in_kb":3}}"#)?;
+                let s = s.with_toml("[builder.thumbnail]\nenabled = false\n")?;
+                let s = s.with_value("verify.verify_trust", false)?;
+                let mut s2 = s.clone();
+                s2.set_value("core.merkle_tree_chunk_size_in_kb", 5)?;
+                s2.update_from_str(r#"{"verify":{"ocsp_fetch":true}}"#, "json")?;
+                // also a context built from them (never used for an operation)
+                let _c = Context::new().with_settings(s2)?;
+                Ok::<(), c2pa::Error>(())
+            });
+            match r {
+                Err(p) => format!("PANIC {p}"),
+                Ok(Err(e)) => gutil::err_class(&e),
+                Ok(Ok(())) => "done".into(),
+            }
+        }
+        Act::LegacyFromToml => match par::guard(|| Settings::from_toml(LEGACY_TOML)) {
+            Err(p) => format!("PANIC {p}"),
+            Ok(Err(e)) => gutil::err_class(&e),
+            Ok(Ok(())) => "done".into(),
+        },
+    }
+}
+
+struct Execution {
+    /// (actor granted, actors that were enabled, gate label the actor left)
+    steps: Vec<(usize, Vec<usize>, String)>,
+    results: Vec<ActorResult>,
+    hang: bool,
+}
+
+/// Run one execution: follow `prefix`, then continue non-preemptively (same actor while enabled, else lowest id).
+fn execute(h: &Harness, fx: &Arc<Fixture>, prefix: &[usize]) -> Execution {
+    let n = h.actors.len();
+    let baton = Baton::new(n);
+    let ctxs: Vec<Arc<Context>> = (0..h.n_ctx).map(|_| mk_ctx(&baton)).collect();
+    let results: Arc<Mutex<Vec<Option<ActorResult>>>> = Arc::new(Mutex::new(vec![None; n]));
+    let mut handles = vec![];
+    for (i, spec) in h.actors.iter().enumerate() {
+        let (b, ctxs, fx, results, spec) = (baton.clone(), ctxs.clone(), fx.clone(), results.clone(), spec.clone());
+        handles.push(std::thread::spawn(move || {
+            ACTOR.with(|a| a.set(Some(i)));
+            let legacy_before = legacy_snapshot();
+            b.gate("start");
+            let result = actor_body(&spec, &ctxs, &fx);
+            let legacy_after = legacy_snapshot();
+            results.lock().unwrap_or_else(|e| e.into_inner())[i] = Some(ActorResult { result, legacy_before, legacy_after });
+            ACTOR.with(|a| a.set(None));
+            b.done(i);
+        }));
+    }
+    let mut steps: Vec<(usize, Vec<usize>, String)> = vec![];
+    let mut hang = !baton.quiesce();
+    while !hang {
+        let en = baton.enabled();
+        if en.is_empty() {
+            break;
+        }
+        let d = steps.len();
+        let choice = if d < prefix.len() {
+            if !en.contains(&prefix[d]) {
+                kit::ev::machinery(format!("C24: replayed prefix diverged at step {d}: actor {} not enabled (enabled {:?})", prefix[d], en));
+            }
+            prefix[d]
+        } else {
+            match steps.last() {
+                Some((p, _, _)) if en.contains(p) => *p,
+                _ => en[0],
+            }
+        };
+        let at = baton.grant(choice);
+        steps.push((choice, en, at));
+        hang = !baton.quiesce();
+    }
+    if hang {
+        // leave the stuck threads behind; the run ends with a violation
+        return Execution { steps, results: vec![], hang: true };
+    }
+    for hd in handles {
+        let _ = hd.join();
+    }
+    let results = results.lock().unwrap_or_else(|e| e.into_inner()).iter().map(|r| r.clone().unwrap_or(ActorResult { result: "missing".into(), legacy_before: String::new(), legacy_after: String::new() })).collect();
+    Execution { steps, results, hang: false }
+}
+
+// ------------------------------------------------------------------------------------------------
+// shuttle engine: the same actors as continuations on one OS thread; yield inside the progress callback
+
+struct PrefixSched {
+    prefix: Vec<usize>,
+    steps: Arc<Mutex<Vec<(usize, Vec<usize>, String)>>>,
+    at: Arc<Mutex<Vec<String>>>,
+    current: Arc<AtomicU64>,
+    diverged: Arc<AtomicU64>,
+    started: bool,
+}
+
+impl shuttle::scheduler::Scheduler for PrefixSched {
+    fn new_execution(&mut self) -> Option<shuttle::scheduler::Schedule> {
+        if self.started {
+            return None;
+        }
+        self.started = true;
+        Some(shuttle::scheduler::Schedule::new(0))
+    }
+
+    fn next_task(&mut self, runnable: &[&shuttle::scheduler::Task], _current: Option<shuttle::scheduler::TaskId>, _is_yielding: bool) -> Option<shuttle::scheduler::TaskId> {
+        // task 0 is the harness body (spawns the actors, then joins them): never preempted, not a choice
+        if let Some(t) = runnable.iter().find(|t| usize::from(t.id()) == 0) {
+            return Some(t.id());
+        }
+        let mut en: Vec<usize> = runnable.iter().map(|t| usize::from(t.id()) - 1).collect();
+        en.sort();
+        let mut g = self.steps.lock().unwrap_or_else(|e| e.into_inner());
+        let d = g.len();
+        let choice = if d < self.prefix.len() {
+            if en.contains(&self.prefix[d]) {
+                self.prefix[d]
+            } else {
+                self.diverged.store(d as u64 + 1, Ordering::SeqCst);
+                en[0]
+            }
+        } else {
+            match g.last() {
+                Some((p, _, _)) if en.contains(p) => *p,
+                _ => en[0],
+            }
+        };
+        let at = self.at.lock().unwrap_or_else(|e| e.into_inner())[choice].clone();
+        g.push((choice, en, at));
+        self.current.store(choice as u64, Ordering::SeqCst);
+        Some(shuttle::scheduler::TaskId::from(choice + 1))
+    }
+
+    fn next_u64(&mut self) -> u64 {
+        0
+    }
+}
+
+fn execute_shuttle(h: &Harness, fx: &Arc<Fixture>, prefix: &[usize]) -> Execution {
+    let n = h.actors.len();
+    let steps: Arc<Mutex<Vec<(usize, Vec<usize>, String)>>> = Arc::new(Mutex::new(vec![]));
+    let at: Arc<Mutex<Vec<String>>> = Arc::new(Mutex::new(vec!["start".to_string(); n]));
+    let current = Arc::new(AtomicU64::new(0));
+    let diverged = Arc::new(AtomicU64::new(0));
+    let results: Arc<Mutex<Vec<Option<ActorResult>>>> = Arc::new(Mutex::new(vec![None; n]));
+    let sched = PrefixSched { prefix: prefix.to_vec(), steps: steps.clone(), at: at.clone(), current: current.clone(), diverged: diverged.clone(), started: false };
+    let mut cfg = shuttle::Config::default();
+    cfg.stack_size = 4 << 20;
+    cfg.failure_persistence = shuttle::FailurePersistence::None;
+    let (actors, n_ctx, fx2, results2) = (h.actors.clone(), h.n_ctx, fx.clone(), results.clone());
+    let out = par::guard(move || {
+        shuttle::Runner::new(sched, cfg).run(move || {
+            let ctxs: Vec<Arc<Context>> = (0..n_ctx)
+                .map(|_| {
+                    let (at, current) = (at.clone(), current.clone());
+                    sdk::ctx()
+                        .with_progress_callback(move |phase: ProgressPhase, step, total| {
+                            let me = current.load(Ordering::SeqCst) as usize;
+                            at.lock().unwrap_or_else(|e| e.into_inner())[me] = format!("{phase:?} {step}/{total}");
+                            shuttle::thread::yield_now();
+                            true
+                        })
+                        .into_shared()
+                })
+                .collect();
+            let handles: Vec<_> = actors
+                .iter()
+                .enumerate()
+                .map(|(i, spec)| {
+                    let (spec, ctxs, fx, results) = (spec.clone(), ctxs.clone(), fx2.clone(), results2.clone());
+                    shuttle::thread::spawn(move || {
+                        let result = actor_body(&spec, &ctxs, &fx);
+                        results.lock().unwrap_or_else(|e| e.into_inner())[i] = Some(ActorResult { result, legacy_before: String::new(), legacy_after: String::new() });
+                    })
+                })
+                .collect();
+            for hd in handles {
+                let _ = hd.join();
+            }
+        })
+    });
+    par::quiet_panics(); // shuttle installs its own panic hook on first use
+    let steps = steps.lock().unwrap_or_else(|e| e.into_inner()).clone();
+    if diverged.load(Ordering::SeqCst) > 0 {
+        kit::ev::machinery(format!("C24: replayed prefix diverged at step {} (shuttle engine)", diverged.load(Ordering::SeqCst) - 1));
+    }
+    if let Err(p) = out {
+        // deadlock or a panic that escaped an actor: reported as a hang-class violation by the judge
+        let _ = p;
+        return Execution { steps, results: vec![], hang: true };
+    }
+    let results = results.lock().unwrap_or_else(|e| e.into_inner()).iter().map(|r| r.clone().unwrap_or(ActorResult { result: "missing".into(), legacy_before: String::new(), legacy_after: String::new() })).collect();
+    Execution { steps, results, hang: false }
+}
+
+fn cpu_time() -> f64 {
+    let mut ts = libc::timespec { tv_sec: 0, tv_nsec: 0 };
+    unsafe { libc::clock_gettime(libc::CLOCK_PROCESS_CPUTIME_ID, &mut ts) };
+    ts.tv_sec as f64 + ts.tv_nsec as f64 * 1e-9
+}
+
+fn needs_os_threads(h: &Harness) -> bool {
+    h.actors.iter().any(|a| matches!(a.act, Act::SettingsBuilder | Act::LegacyFromToml))
+}
+
+fn run_schedule(h: &Harness, fx: &Arc<Fixture>, prefix: &[usize]) -> Execution {
+    if needs_os_threads(h) { execute(h, fx, prefix) } else { execute_shuttle(h, fx, prefix) }
+}
+
+fn preemptions(steps: &[(usize, Vec<usize>, String)], upto: usize) -> usize {
+    (1..upto.min(steps.len())).filter(|d| steps[*d].0 != steps[*d - 1].0 && steps[*d].1.contains(&steps[*d - 1].0)).count()
+}
+
+// ------------------------------------------------------------------------------------------------
+// judgement
+
+struct Refs {
+    /// sequential result of Sign / Read
+    sign: String,
+    read: String,
+    legacy_default: String,
+    legacy_after_from_toml: String,
+}
+
+fn judge(run: &Run, h: &Harness, refs: &Refs, ex: &Execution) {
+    let schedule: Vec<usize> = ex.steps.iter().map(|s| s.0).collect();
+    let case = json!({"harness": h.name, "schedule": schedule});
+    if ex.hang {
+        run.outcome("hang");
+        run.violation(format!("hang harness={}", h.name), format!("no progress after schedule {schedule:?}: a thread neither reached a checkpoint nor finished within {HANG:?} (baton engine), or shuttle reported a deadlock / escaped panic"), case);
+        return;
+    }
+    // position (step index) of each cancel, and first/last step of every actor
+    let first = |i: usize| schedule.iter().position(|a| *a == i).unwrap_or(usize::MAX);
+    let last = |i: usize| schedule.iter().rposition(|a| *a == i).unwrap_or(0);
+    for (i, spec) in h.actors.iter().enumerate() {
+        let r = &ex.results[i];
+        let seq = match spec.act {
+            Act::Sign => refs.sign.as_str(),
+            Act::Read => refs.read.as_str(),
+            _ => "done",
+        };
+        let actn = format!("{:?}", spec.act).to_lowercase();
+        if r.result.starts_with("PANIC") {
+            run.outcome("panic");
+            run.violation(format!("panic act={actn} harness={}", h.name), format!("{}: actor {i} panics: {}", h.name, r.result), case.clone());
+            continue;
+        }
+        // cancels aimed at this actor's context
+        let cancels: Vec<usize> = h.actors.iter().enumerate().filter(|(_, s)| s.act == Act::Cancel && s.ctx == spec.ctx).map(|(j, _)| j).collect();
+        let is_op = matches!(spec.act, Act::Sign | Act::Read);
+        let allowed: Vec<&str> = if !is_op || cancels.is_empty() {
+            vec![seq]
+        } else {
+            // the cancel actor has exactly one segment: its step index is its position
+            let cpos = cancels.iter().map(|c| first(*c)).min().unwrap_or(usize::MAX);
+            if cpos < first(i) {
+                vec!["Cancelled"] // sequential placement: cancel, then the operation
+            } else if cpos > last(i) {
+                vec![seq] // sequential placement: the operation, then cancel
+            } else {
+                vec!["Cancelled", seq]
+            }
+        };
+        if allowed.contains(&r.result.as_str()) {
+            run.outcome(format!("{actn}: {}", if r.result == "Cancelled" { "cancelled as a placement allows" } else { "sequential result" }));
+        } else {
+            let foreign_cancel = h.actors.iter().any(|s| s.act == Act::Cancel && s.ctx != spec.ctx);
+            let what = if r.result == "Cancelled" && cancels.is_empty() && foreign_cancel {
+                "cancelled-by-cancel-on-another-context"
+            } else if r.result == "Cancelled" {
+                "cancelled-without-cancel"
+            } else if cancels.is_empty() {
+                "result-differs-from-sequential"
+            } else {
+                "result-not-allowed-by-any-cancel-placement"
+            };
+            run.outcome(what.to_string());
+            run.violation(
+                format!("{what} act={actn} got={} harness={}", short_result(&r.result).split(':').next().unwrap_or(""), h.name),
+                format!("{}: schedule {schedule:?}: actor {i} ({actn} on ctx {}) ends with {} ; allowed: {:?}", h.name, spec.ctx, short_result(&r.result), allowed.iter().map(|a| short_result(a)).collect::<Vec<_>>()),
+                case.clone(),
+            );
+        }
+        // legacy thread-local settings of this thread
+        let want_after = if spec.act == Act::LegacyFromToml { &refs.legacy_after_from_toml } else { &refs.legacy_default };
+        if needs_os_threads(h) && (r.legacy_before != refs.legacy_default || &r.legacy_after != want_after) {
+            run.outcome("legacy settings changed");
+            run.violation(
+                format!("legacy-thread-local-settings-changed act={actn} harness={}", h.name),
+                format!("{}: schedule {schedule:?}: thread of actor {i} ({actn}) sees legacy settings before==default: {}, after==expected: {}", h.name, r.legacy_before == refs.legacy_default, &r.legacy_after == want_after),
+                case.clone(),
+            );
+        }
+    }
+}
+
+// ------------------------------------------------------------------------------------------------
+// exploration: parallel stateless DFS over schedule prefixes
+
+struct Stats {
+    executions: u64,
+    transitions: u64,
+    alternating: u64,
+    max_len: usize,
+}
+
+// ------------------------------------------------------------------------------------------------
+// shuttle engine, persistent form: one shuttle Runner per explorer worker; its scheduler pulls the next schedule
+// prefix from the shared work stack at the start of every execution, so continuation stacks are reused.
+
+struct Work {
+    stack: Mutex<Vec<Vec<usize>>>,
+    active: AtomicU64,
+    done: Mutex<Vec<Execution>>,
+    diverged: AtomicU64,
+}
+
+#[derive(Default)]
+struct WorkerLocal {
+    prefix: Vec<usize>,
+    steps: Vec<(usize, Vec<usize>, String)>,
+    at: Vec<String>,
+    current: usize,
+    in_execution: bool,
+}
+
+thread_local! {
+    static WL: std::cell::RefCell<WorkerLocal> = std::cell::RefCell::new(WorkerLocal::default());
+}
+
+struct PullSched {
+    work: Arc<Work>,
+    n_actors: usize,
+}
+
+impl shuttle::scheduler::Scheduler for PullSched {
+    fn new_execution(&mut self) -> Option<shuttle::scheduler::Schedule> {
+        loop {
+            let job = {
+                let mut g = self.work.stack.lock().unwrap_or_else(|e| e.into_inner());
+                let j = g.pop();
+                if j.is_some() {
+                    self.work.active.fetch_add(1, Ordering::SeqCst);
+                }
+                j
+            };
+            match job {
+                Some(p) => {
+                    WL.with(|w| {
+                        let mut w = w.borrow_mut();
+                        w.prefix = p;
+                        w.steps.clear();
+                        w.at = vec!["start".to_string(); self.n_actors];
+                        w.current = 0;
+                        w.in_execution = true;
+                    });
+                    return Some(shuttle::scheduler::Schedule::new(0));
+                }
+                None => {
+                    if self.work.active.load(Ordering::SeqCst) == 0 && self.work.stack.lock().unwrap_or_else(|e| e.into_inner()).is_empty() {
+                        return None;
+                    }
+                    std::thread::sleep(Duration::from_micros(100));
+                }
+            }
+        }
+    }
+
+    fn next_task(&mut self, runnable: &[&shuttle::scheduler::Task], _current: Option<shuttle::scheduler::TaskId>, _is_yielding: bool) -> Option<shuttle::scheduler::TaskId> {
+        if let Some(t) = runnable.iter().find(|t| usize::from(t.id()) == 0) {
+            return Some(t.id());
+        }
+        let mut en: Vec<usize> = runnable.iter().map(|t| usize::from(t.id()) - 1).collect();
+        en.sort();
+        let choice = WL.with(|w| {
+            let mut w = w.borrow_mut();
+            let d = w.steps.len();
+            let choice = if d < w.prefix.len() {
+                if en.contains(&w.prefix[d]) {
+                    w.prefix[d]
+                } else {
+                    self.work.diverged.store(d as u64 + 1, Ordering::SeqCst);
+                    en[0]
+                }
+            } else {
+                match w.steps.last() {
+                    Some((p, _, _)) if en.contains(p) => *p,
+                    _ => en[0],
+                }
+            };
+            let at = w.at[choice].clone();
+            w.steps.push((choice, en.clone(), at));
+            w.current = choice;
+            choice
+        });
+        Some(shuttle::scheduler::TaskId::from(choice + 1))
+    }
+
+    fn next_u64(&mut self) -> u64 {
+        0
+    }
+}
+
+fn children_of(steps: &[(usize, Vec<usize>, String)], from: usize, bound: Option<usize>) -> Vec<Vec<usize>> {
+    let mut children = vec![];
+    for d in from..steps.len() {
+        let (chosen, en, _) = &steps[d];
+        let base_p = preemptions(steps, d);
+        for alt in en {
+            if alt == chosen {
+                continue;
+            }
+            let preempt = d > 0 && en.contains(&steps[d - 1].0) && *alt != steps[d - 1].0;
+            if let Some(b) = bound {
+                if base_p + preempt as usize > b {
+                    continue;
+                }
+            }
+            let mut p: Vec<usize> = steps[..d].iter().map(|s| s.0).collect();
+            p.push(*alt);
+            children.push(p);
+        }
+    }
+    children
+}
+
+/// Body of one worker: runs executions until the work stack is exhausted.
+fn shuttle_worker(work: Arc<Work>, actors: Vec<ActorSpec>, n_ctx: usize, bound: Option<usize>, fx: Arc<Fixture>) {
+    loop {
+        let sched = PullSched { work: work.clone(), n_actors: actors.len() };
+        let mut cfg = shuttle::Config::default();
+        cfg.stack_size = 4 << 20;
+        cfg.failure_persistence = shuttle::FailurePersistence::None;
+        let (work2, actors2, fx2) = (work.clone(), actors.clone(), fx.clone());
+        let out = par::guard(move || {
+            shuttle::Runner::new(sched, cfg).run(move || {
+                let n = actors2.len();
+                let results: Arc<Mutex<Vec<Option<ActorResult>>>> = Arc::new(Mutex::new(vec![None; n]));
+                let ctxs: Vec<Arc<Context>> = (0..n_ctx)
+                    .map(|_| {
+                        sdk::ctx()
+                            .with_progress_callback(move |phase: ProgressPhase, step, total| {
+                                WL.with(|w| {
+                                    let mut w = w.borrow_mut();
+                                    let me = w.current;
+                                    w.at[me] = format!("{phase:?} {step}/{total}");
+                                });
+                                shuttle::thread::yield_now();
+                                true
+                            })
+                            .into_shared()
+                    })
+                    .collect();
+                let handles: Vec<_> = actors2
+                    .iter()
+                    .enumerate()
+                    .map(|(i, spec)| {
+                        let (spec, ctxs, fx, results) = (spec.clone(), ctxs.clone(), fx2.clone(), results.clone());
+                        shuttle::thread::spawn(move || {
+                            let result = actor_body(&spec, &ctxs, &fx);
+                            results.lock().unwrap_or_else(|e| e.into_inner())[i] = Some(ActorResult { result, legacy_before: String::new(), legacy_after: String::new() });
+                        })
+                    })
+                    .collect();
+                for hd in handles {
+                    let _ = hd.join();
+                }
+                // post-processing on the harness task: children first, then hand the execution to the judge
+                let (steps, plen) = WL.with(|w| {
+                    let mut w = w.borrow_mut();
+                    w.in_execution = false;
+                    (std::mem::take(&mut w.steps), w.prefix.len())
+                });
+                let kids = children_of(&steps, plen, bound);
+                work2.stack.lock().unwrap_or_else(|e| e.into_inner()).extend(kids);
+                let results = results.lock().unwrap_or_else(|e| e.into_inner()).iter().map(|r| r.clone().unwrap_or(ActorResult { result: "missing".into(), legacy_before: String::new(), legacy_after: String::new() })).collect();
+                work2.done.lock().unwrap_or_else(|e| e.into_inner()).push(Execution { steps, results, hang: false });
+                work2.active.fetch_sub(1, Ordering::SeqCst);
+            })
+        });
+        par::quiet_panics();
+        match out {
+            Ok(_) => return, // scheduler ran out of work
+            Err(_) => {
+                // shuttle aborted the execution (deadlock, or a panic that escaped an actor): report it and carry on
+                let (steps, was_in) = WL.with(|w| {
+                    let mut w = w.borrow_mut();
+                    let was = w.in_execution;
+                    w.in_execution = false;
+                    (std::mem::take(&mut w.steps), was)
+                });
+                if was_in {
+                    work.done.lock().unwrap_or_else(|e| e.into_inner()).push(Execution { steps, results: vec![], hang: true });
+                    work.active.fetch_sub(1, Ordering::SeqCst);
+                } else {
+                    return;
+                }
+            }
+        }
+    }
+}
+
+fn explore_shuttle(run: &Run, h: &Harness, refs: &Refs, fx: &Arc<Fixture>) -> Stats {
+    let work = Arc::new(Work { stack: Mutex::new(vec![vec![]]), active: AtomicU64::new(0), done: Mutex::new(vec![]), diverged: AtomicU64::new(0) });
+    let mut handles = vec![];
+    for _ in 0..par::workers() {
+        let (w, a, n, b, f) = (work.clone(), h.actors.clone(), h.n_ctx, h.preemption_bound, fx.clone());
+        handles.push(std::thread::spawn(move || shuttle_worker(w, a, n, b, f)));
+    }
+    let mut st = Stats { executions: 0, transitions: 0, alternating: 0, max_len: 0 };
+    let mut sampled = 0u64;
+    loop {
+        let finished = handles.iter().all(|h| h.is_finished());
+        let batch: Vec<Execution> = std::mem::take(&mut *work.done.lock().unwrap_or_else(|e| e.into_inner()));
+        if batch.is_empty() {
+            if finished {
+                break;
+            }
+            std::thread::sleep(Duration::from_millis(2));
+            continue;
+        }
+        for ex in batch {
+            st.executions += 1;
+            st.transitions += ex.steps.len() as u64;
+            st.max_len = st.max_len.max(ex.steps.len());
+            if preemptions(&ex.steps, ex.steps.len()) >= 2 {
+                st.alternating += 1;
+            }
+            judge(run, h, refs, &ex);
+            sampled += 1;
+            if sampled % 4001 == 7 && !ex.hang {
+                run.sample(json!({"harness": h.name, "engine": "shuttle", "schedule": ex.steps.iter().map(|s| s.0).collect::<Vec<_>>(),
+                    "gates_left": ex.steps.iter().map(|s| format!("{}:{}", s.0, s.2)).collect::<Vec<_>>(),
+                    "results": ex.results.iter().map(|r| short_result(&r.result)).collect::<Vec<_>>() }));
+            }
+        }
+    }
+    for hd in handles {
+        let _ = hd.join();
+    }
+    if work.diverged.load(Ordering::SeqCst) > 0 {
+        kit::ev::machinery(format!("C24: a replayed schedule prefix diverged at step {} in harness {} (shuttle engine)", work.diverged.load(Ordering::SeqCst) - 1, h.name));
+    }
+    st
+}
+
+fn explore(run: &Run, h: &Harness, refs: &Refs, fx: &Arc<Fixture>) -> Stats {
+    let stack: Mutex<Vec<Vec<usize>>> = Mutex::new(vec![vec![]]);
+    let active = AtomicU64::new(0);
+    let executions = AtomicU64::new(0);
+    let transitions = AtomicU64::new(0);
+    let alternating = AtomicU64::new(0);
+    let max_len = AtomicU64::new(0);
+    let suspects: Mutex<Vec<Vec<usize>>> = Mutex::new(vec![]);
+    let sampled = AtomicU64::new(0);
+    // thread-heavy executions: fewer explorer workers than cores
+    let workers = if needs_os_threads(h) { (par::workers() / 2).clamp(1, 8) } else { par::workers() };
+    std::thread::scope(|s| {
+        for _ in 0..workers {
+            s.spawn(|| loop {
+                let job = {
+                    let mut g = stack.lock().unwrap();
+                    let j = g.pop();
+                    if j.is_some() {
+                        active.fetch_add(1, Ordering::SeqCst);
+                    }
+                    j
+                };
+                let Some(prefix) = job else {
+                    if active.load(Ordering::SeqCst) == 0 && stack.lock().unwrap().is_empty() {
+                        break;
+                    }
+                    std::thread::sleep(Duration::from_micros(200));
+                    continue;
+                };
+                let ex = run_schedule(h, fx, &prefix);
+                executions.fetch_add(1, Ordering::Relaxed);
+                transitions.fetch_add(ex.steps.len() as u64, Ordering::Relaxed);
+                max_len.fetch_max(ex.steps.len() as u64, Ordering::Relaxed);
+                if preemptions(&ex.steps, ex.steps.len()) >= 2 {
+                    alternating.fetch_add(1, Ordering::Relaxed);
+                }
+                // children: every alternative at depth >= prefix.len()
+                let mut children = vec![];
+                for d in prefix.len()..ex.steps.len() {
+                    let (chosen, en, _) = &ex.steps[d];
+                    let base_p = preemptions(&ex.steps, d);
+                    for alt in en {
+                        if alt == chosen {
+                            continue;
+                        }
+                        let preempt = d > 0 && en.contains(&ex.steps[d - 1].0) && *alt != ex.steps[d - 1].0;
+                        if let Some(b) = h.preemption_bound {
+                            if base_p + preempt as usize > b {
+                                continue;
+                            }
+                        }
+                        let mut p: Vec<usize> = ex.steps[..d].iter().map(|s| s.0).collect();
+                        p.push(*alt);
+                        children.push(p);
+                    }
+                }
+                stack.lock().unwrap().extend(children);
+                // judge; a violation seen during the parallel sweep is re-executed alone before it is reported
+                let probe = Run::new("C24", run.tier, "model_checking");
+                judge(&probe, h, refs, &ex);
+                if probe.violation_count() > 0 {
+                    suspects.lock().unwrap().push(ex.steps.iter().map(|s| s.0).collect());
+                } else {
+                    judge(run, h, refs, &ex);
+                }
+                if sampled.fetch_add(1, Ordering::Relaxed) % 4001 == 7 {
+                    run.sample(json!({"harness": h.name, "schedule": ex.steps.iter().map(|s| s.0).collect::<Vec<_>>(),
+                        "gates_left": ex.steps.iter().map(|s| format!("{}:{}", s.0, s.2)).collect::<Vec<_>>(),
+                        "results": ex.results.iter().map(|r| short_result(&r.result)).collect::<Vec<_>>() }));
+                }
+                active.fetch_sub(1, Ordering::SeqCst);
+            });
+        }
+    });
+    // re-execute suspects alone (no other explorer running)
+    for sch in suspects.into_inner().unwrap() {
+        let ex = run_schedule(h, fx, &sch);
+        let probe = Run::new("C24", run.tier, "model_checking");
+        judge(&probe, h, refs, &ex);
+        if probe.violation_count() > 0 {
+            judge(run, h, refs, &ex);
+        } else {
+            run.outcome("violation only while other explorer workers were running");
+            run.violation(
+                format!("interference-between-unrelated-contexts harness={}", h.name),
+                format!("{}: schedule {sch:?} violated the oracle while other explorer workers (using their own contexts) were running, but not when re-executed alone", h.name),
+                json!({"harness": h.name, "schedule": sch}),
+            );
+        }
+    }
+    Stats { executions: executions.into_inner(), transitions: transitions.into_inner(), alternating: alternating.into_inner(), max_len: max_len.into_inner() as usize }
+}
+
+fn harnesses(run: &Run) -> Vec<Harness> {
+    use Act::*;
+    let a = |act: Act, ctx: usize| ActorSpec { act, ctx };
+    let mk = |name: &str, actors: Vec<ActorSpec>, bound: Option<usize>| {
+        let n_ctx = actors.iter().map(|s| s.ctx).max().unwrap_or(0) + 1;
+        Harness { name: name.to_string(), actors, n_ctx, preemption_bound: bound }
+    };
+    let t = run.tier.is_thorough();
+    let mut v = vec![
+        mk("sign(A)||read(A)", vec![a(Sign, 0), a(Read, 0)], None),
+        mk("read(A)||read(A)", vec![a(Read, 0), a(Read, 0)], None),
+        mk("read(A)||cancel(A)", vec![a(Read, 0), a(Cancel, 0)], None),
+        mk("sign(A)||cancel(A)", vec![a(Sign, 0), a(Cancel, 0)], None),
+        mk("read(A)||cancel(B)", vec![a(Read, 0), a(Cancel, 1)], None),
+        mk("sign(A)||cancel(B)", vec![a(Sign, 0), a(Cancel, 1)], None),
+        mk("read(A)||settings-builder", vec![a(Read, 0), a(SettingsBuilder, 1)], None),
+        mk("sign(A)||settings-builder", vec![a(Sign, 0), a(SettingsBuilder, 1)], None),
+        mk("read(A)||legacy-from_toml", vec![a(Read, 0), a(LegacyFromToml, 1)], None),
+        mk("sign(A)||legacy-from_toml", vec![a(Sign, 0), a(LegacyFromToml, 1)], None),
+        mk("read(A)||read(B)||cancel(B)", vec![a(Read, 0), a(Read, 1), a(Cancel, 1)], if t { None } else { Some(2) }),
+        mk("sign(A)||read(B)||cancel(B)", vec![a(Sign, 0), a(Read, 1), a(Cancel, 1)], if t { None } else { Some(2) }),
+        mk("sign(A)||read(A)||cancel(A)", vec![a(Sign, 0), a(Read, 0), a(Cancel, 0)], if t { None } else { Some(2) }),
+        mk("sign(A)||read(A)||read(B)", vec![a(Sign, 0), a(Read, 0), a(Read, 1)], Some(2)),
+    ];
+    if t {
+        v.push(mk("sign(A)||sign(A)", vec![a(Sign, 0), a(Sign, 0)], Some(3)));
+        v.push(mk("sign(A)||sign(B)||cancel(B)", vec![a(Sign, 0), a(Sign, 1), a(Cancel, 1)], Some(2)));
+        v.push(mk("sign(A)||read(A)||legacy-from_toml", vec![a(Sign, 0), a(Read, 0), a(LegacyFromToml, 1)], Some(2)));
+    }
+    v
+}
+
+fn fixture() -> Arc<Fixture> {
+    let asset = assets::by_name("png");
+    let signed = sdk::sign_simple(signer(), asset.mime, &asset.data, &[]);
+    Arc::new(Fixture { asset, signed })
+}
+
+fn sequential_refs(fx: &Arc<Fixture>) -> Refs {
+    // each operation alone, on its own thread, with a gated context that is always granted immediately
+    let one = |act: Act| -> ActorResult {
+        let h = Harness { name: "sequential".into(), actors: vec![ActorSpec { act, ctx: 0 }], n_ctx: 1, preemption_bound: None };
+        let ex = execute(&h, fx, &[]);
+        if ex.hang {
+            kit::ev::machinery("C24: sequential reference run hangs");
+        }
+        ex.results[0].clone()
+    };
+    let (s1, s2) = (one(Act::Sign), one(Act::Sign));
+    let (r1, r2) = (one(Act::Read), one(Act::Read));
+    if s1 != s2 || r1 != r2 {
+        kit::ev::machinery("C24: sequential sign/read is not deterministic after canonicalisation");
+    }
+    if !s1.result.starts_with("Ok:") || !r1.result.starts_with("Ok:") || s1.result.contains("unreadable") {
+        kit::ev::machinery(format!("C24: sequential references are not Ok: sign={} read={}", short_result(&s1.result), short_result(&r1.result)));
+    }
+    let l = one(Act::LegacyFromToml);
+    if l.result != "done" || l.legacy_after == l.legacy_before {
+        kit::ev::machinery(format!("C24: legacy Settings::from_toml has no observable effect on its own thread ({})", l.result));
+    }
+    Refs { sign: s1.result, read: r1.result, legacy_default: s1.legacy_before, legacy_after_from_toml: l.legacy_after }
+}
+
+pub fn run(run: &Run, replay: Option<&Value>) {
+    run.rule(
+        "per harness (threads over shared/distinct contexts) ALL schedules of baton grants are executed (stateless DFS; where a preemption bound is stated, all schedules within it). \
+         evaluations = executions = states; transitions = baton grants (segments executed). non-trivial = executions in which control actually alternates: at least two preemptions \
+         (a thread is descheduled at a checkpoint while it could continue), counted per distinct schedule.",
+    );
+    run.assume("operations interact only at progress checkpoints (cancel flag, callback) and at OnceLock initialisations; OnceLock initialisation races are left to std (trusted)");
+    run.assume("one thread runs at a time under the baton; data races inside safe Rust are excluded by the compiler; the crate's unsafe impl Send/Sync sites are trusted");
+    run.assume("legacy thread-local settings are observed through the deprecated accessor Settings::to_toml() at thread start and end");
+    run.assume("a violation observed while several explorer workers run is re-executed alone before it is reported");
+    par::quiet_panics();
+    let fx = fixture();
+    let refs = sequential_refs(&fx);
+    let hs = harnesses(run);
+
+    if let Some(c) = replay {
+        let name = c["harness"].as_str().unwrap_or("");
+        let h = hs.iter().find(|h| h.name == name).unwrap_or_else(|| kit::ev::machinery("C24 replay: unknown harness"));
+        let sch: Vec<usize> = c["schedule"].as_array().map(|a| a.iter().filter_map(|x| x.as_u64().map(|n| n as usize)).collect()).unwrap_or_default();
+        let ex = run_schedule(h, &fx, &sch);
+        println!("replay {name} schedule {sch:?}");
+        for (i, s) in ex.steps.iter().enumerate() {
+            println!("  step {i}: actor {} leaves gate '{}' (enabled {:?})", s.0, s.2, s.1);
+        }
+        for (i, r) in ex.results.iter().enumerate() {
+            println!("  actor {i} {:?}: {}", h.actors[i].act, short_result(&r.result));
+        }
+        run.eval();
+        run.states(1);
+        run.transitions(ex.steps.len() as u64);
+        judge(run, h, &refs, &ex);
+        return;
+    }
+
+    if std::env::var("VERIF_C24_BENCH").is_ok() {
+        let hc = Harness { name: "cancel||cancel".into(), actors: vec![ActorSpec { act: Act::Cancel, ctx: 0 }, ActorSpec { act: Act::Cancel, ctx: 0 }], n_ctx: 1, preemption_bound: None };
+        let hr = Harness { name: "read".into(), actors: vec![ActorSpec { act: Act::Read, ctx: 0 }], n_ctx: 1, preemption_bound: None };
+        let hsg = Harness { name: "sign".into(), actors: vec![ActorSpec { act: Act::Sign, ctx: 0 }], n_ctx: 1, preemption_bound: None };
+        for (hn, hh) in [("cancel||cancel", &hc), ("read alone", &hr), ("sign alone", &hsg)] {
+            for (name, f) in [("baton", execute as fn(&Harness, &Arc<Fixture>, &[usize]) -> Execution), ("shuttle", execute_shuttle)] {
+                let t = std::time::Instant::now();
+                let c0 = cpu_time();
+                for _ in 0..200 { let _ = f(hh, &fx, &[]); }
+                println!("{hn} {name}: wall {:?}/execution, cpu {:.3} ms/execution", t.elapsed() / 200, (cpu_time() - c0) * 1000.0 / 200.0);
+            }
+        }
+        let h = &hs[0];
+        for (name, f) in [("baton", execute as fn(&Harness, &Arc<Fixture>, &[usize]) -> Execution), ("shuttle", execute_shuttle)] {
+            let t = std::time::Instant::now();
+            let c0 = cpu_time();
+            for _ in 0..200 {
+                let ex = f(h, &fx, &[0, 1, 0, 1, 0, 1]);
+                assert!(!ex.hang);
+            }
+            println!("{name}: wall {:?}/execution, process cpu {:.3} ms/execution", t.elapsed() / 200, (cpu_time() - c0) * 1000.0 / 200.0);
+        }
+        {
+            let hb = Harness { name: "read(A)||read(A)".into(), actors: vec![ActorSpec { act: Act::Read, ctx: 0 }, ActorSpec { act: Act::Read, ctx: 0 }], n_ctx: 1, preemption_bound: None };
+            let t = std::time::Instant::now();
+            let c0 = cpu_time();
+            let st = explore_shuttle(run, &hb, &refs, &fx);
+            println!("persistent shuttle read||read: {} executions, wall {:?}, cpu {:.3} ms/execution", st.executions, t.elapsed(), (cpu_time() - c0) * 1000.0 / st.executions as f64);
+        }
+        let time = |name: &str, f: &dyn Fn()| {
+            let c0 = cpu_time();
+            for _ in 0..200 { f(); }
+            println!("{name}: cpu {:.3} ms", (cpu_time() - c0) * 1000.0 / 200.0);
+        };
+        time("sdk::ctx()", &|| { let _ = sdk::ctx(); });
+        time("Context::new()", &|| { let _ = Context::new(); });
+        let ctx = sdk::ctx().into_shared();
+        time("read", &|| { let _ = Reader::from_shared_context(&ctx).with_stream(fx.asset.mime, Cursor::new(&fx.signed)); });
+        time("sign+readback", &|| { let _ = actor_body(&ActorSpec { act: Act::Sign, ctx: 0 }, &[ctx.clone()], &fx); });
+        time("legacy_snapshot", &|| { let _ = legacy_snapshot(); });
+        time("thread spawn+join", &|| { let _ = std::thread::spawn(|| {}).join(); });
+        run.eval();
+        return;
+    }
+    let mut per: BTreeMap<String, Value> = BTreeMap::new();
+    let t0 = std::time::Instant::now();
+    for h in &hs {
+        let st = if needs_os_threads(h) { explore(run, h, &refs, &fx) } else { explore_shuttle(run, h, &refs, &fx) };
+        let exhaustive_all = h.preemption_bound.is_none();
+        run.space(
+            &format!("{}: {}", h.name, match h.preemption_bound { None => "all interleavings".to_string(), Some(b) => format!("all interleavings with <= {b} preemptions") }),
+            st.executions,
+            true,
+        );
+        run.evals(st.executions);
+        run.states(st.executions);
+        run.traces(st.executions);
+        run.transitions(st.transitions);
+        run.nontrivial_n(st.alternating);
+        per.insert(h.name.clone(), json!({"interleavings": st.executions, "segments_executed": st.transitions, "with_2+_preemptions": st.alternating, "longest_schedule": st.max_len, "unbounded": exhaustive_all, "elapsed_s": t0.elapsed().as_secs_f64()}));
+    }
+    run.extra("harnesses", json!(per));
+
+    // free-running pass: real threads, no baton, shared and distinct contexts
+    let n = run.tier.pick(40u64, 400u64);
+    let free_viol = AtomicU64::new(0);
+    for round in 0..n {
+        let shared = sdk::ctx().into_shared();
+        let other = sdk::ctx().into_shared();
+        let res: Mutex<Vec<(String, String)>> = Mutex::new(vec![]);
+        std::thread::scope(|s| {
+            for i in 0..6 {
+                let (shared, other, fx, res) = (&shared, &other, &fx, &res);
+                s.spawn(move || {
+                    let ctxs = vec![shared.clone()];
+                    let act = if i % 2 == 0 { Act::Sign } else { Act::Read };
+                    let before = legacy_snapshot();
+                    let r = actor_body(&ActorSpec { act: act.clone(), ctx: 0 }, &ctxs, fx);
+                    if before != legacy_snapshot() {
+                        res.lock().unwrap().push(("legacy".into(), "changed".into()));
+                    }
+                    res.lock().unwrap().push((format!("{act:?}"), r));
+                    if i == 5 {
+                        other.cancel(); // never affects `shared`
+                    }
+                });
+            }
+        });
+        for (act, r) in res.into_inner().unwrap() {
+            let want = if act == "Sign" { &refs.sign } else { &refs.read };
+            if &r != want {
+                free_viol.fetch_add(1, Ordering::Relaxed);
+                run.violation(format!("free-running act={act} got={}", short_result(&r).split(':').next().unwrap_or("")), format!("round {round}: real threads on a shared context: {act} gives {}", short_result(&r)), json!({"harness":"free-running","round":round}));
+            }
+        }
+        run.evals(6);
+    }
+    run.extra("free_running_operations", json!(n * 6));
 }
